@@ -155,7 +155,10 @@ unicode_wstfont2(unsigned int c, int italic)
 	} else /* 0xF000 ... 0xF7FF reserved for DRCS */
 		return invalid;
 
-	if (italic)
+	/* The font image has 48 rows of 32 glyphs, the slanted glyphs of
+	   rows 0 ... 16 in rows 31 ... 47. There are none of row 17
+	   (Cyrillic U+0440 ... U+045F). */
+	if (italic && c < 17 * 32)
 		return c + 31 * 32;
 	else
 		return c;
